@@ -14,13 +14,18 @@ CHECKS = {
              "C01_validator_sound): any table automaton passing the extracted proved lock-step check against the specification "
              "automaton of the rule set selects, for EVERY input, the longest match / first rule token of the manual. The check is "
              "run on the tables the rebuilt flex emits for each generated rule set (incl. sets that force every generator array "
-             "to grow); compiled scanners' token streams are judged by a proved validator.",
-        design="DESIGN.md section 6 C01", technique="machine-checked proof (Rocq) + proved checker run on emitted tables + differential correspondence"),
+             "to grow); compiled scanners' token streams are judged by a proved validator. The intermediate products of the generator "
+             "are inside the model too: the NFA printed by flex -T with its path semantics, its subset simulation proved exact "
+             "(C01_subset_construction_is_exact, C01_dfa_state_accepts_first_nfa_rule), and the same checker applied to that NFA "
+             "(C01_nfa_accepts_the_documented_language) and to the printed DFA (C01_printed_dfa_selects_the_documented_token).",
+        design="DESIGN.md section 6 C01 and 12.2", technique="machine-checked proof (Rocq) + proved checker run on emitted tables + differential correspondence"),
     "C02": dict(
         text="Rocq theorems C02_representation_independent (two table sets passing the lock-step check agree on every input) and "
              "C02_refusals (generator option-compatibility model = documented table on all 6144 option sets, enumeration proved complete). "
              "Every (table option, 7/8 bit, batch/interactive, %array, back end) combination examined is lock-stepped against the same "
-             "specification; flex's accept/refuse decision is compared with the extracted model on all 6144 option sets.",
+             "specification; flex's accept/refuse decision is compared with the extracted model on all 6144 option sets. "
+             "C02_equivalence_classes_respect_the_nfa: the emitted yy_ec is judged against the printed NFA (bytes of one class "
+             "drive the subset construction alike), for every input (run inside C01's NFA family).",
         design="DESIGN.md section 6 C02", technique="machine-checked proof (Rocq) + exhaustive finite table + proved checker on emitted tables"),
     "C06": dict(
         text="Rocq theorems: C06_validator_sound (accepted token streams are documented tokenisations in which r/s competes with "
